@@ -21,6 +21,7 @@ def hdrOf? : Json → Option Hdr
   | .arr #[.str "secs", x] => do some (.secs (← jInt? x))
   | .arr #[.str "date", x] => do some (.date (← jInt? x))
   | .arr #[.str "garbage"] => some .garbage
+  | .arr #[.str "other-case", x] => do some (.otherCase (← jInt? x))
   | .arr #[.str "overflow"] => some .overflow
   | _ => none
 
@@ -195,6 +196,16 @@ def handle : DrvHandler := fun op args =>
       let cs ← (← jArr? cs).mapM cycleInOf?
       let outs := cycles cfg Throttler.fresh t0 cs
       some (ok (.arr (outs.map cycleOutJ).toArray))
+  | "C12.product", [cfg, evs] => do
+      -- N objects on one clock: events (object, start time, cycle input) in the observed order
+      let cfg ← delaysOf? cfg
+      let evs ← (← jArr? evs).mapM (fun e => do
+        let k ← jNat? (← jField? e "obj")
+        let t ← jInt? (← jField? e "at")
+        let ci ← cycleInOf? (← jField? e "in")
+        some (⟨k, t, ci.1⟩ : Event))
+      let r := runProduct cfg (fun _ => Throttler.fresh) evs
+      some (ok (.arr (r.2.map (fun p => Json.arr #[jInt p.1, cycleOutJ p.2])).toArray))
   | "C12.vault", [src, keys, reqs, labels] => do
       let src ← srcOf? src
       let keys ← (← jArr? keys).mapM jNat?
